@@ -1366,6 +1366,89 @@ def cv_class_positions(payload):
     return out
 
 
+def _dotted(cls):
+    return "%s.%s" % (cls.__module__, cls.__qualname__)
+
+
+def _by_name(cls):
+    """can the pickler write this class as a global (module + qualified name lead back to it)?"""
+    import sys
+    obj = sys.modules.get(getattr(cls, "__module__", None))
+    try:
+        for a in cls.__qualname__.split("."):
+            obj = getattr(obj, a)
+    except AttributeError:
+        return False
+    return obj is cls
+
+
+def _tc_types(payload):
+    """the objects under old_type / new_type of the type_changes records"""
+    body = payload.get("type_changes") if isinstance(payload, dict) else None
+    out = []
+    if isinstance(body, dict):
+        for rec in body.values():
+            if isinstance(rec, dict):
+                out += [rec[k] for k in ("old_type", "new_type") if k in rec]
+    return out
+
+
+def _datetimes(o, acc, depth=0):
+    import datetime
+    Opcode, SetOrdered = _helper()
+    if isinstance(o, datetime.datetime):
+        acc.append(o)
+    elif isinstance(o, dict) and depth < 12:
+        for k, x in o.items():
+            _datetimes(k, acc, depth + 1)
+            _datetimes(x, acc, depth + 1)
+    elif (isinstance(o, (list, tuple, set, frozenset)) or type(o) is SetOrdered) and depth < 12:
+        for x in o:
+            _datetimes(x, acc, depth + 1)
+    return acc
+
+
+def cv_outside(spec, t1, t2, payload):
+    """What of this delta lies outside 'deltas produced from pairs of nested values' / outside the default allow-list
+    BY THE INPUT, and what DeepDiff added itself:
+      fn_type    the value is an allow-listed FUNCTION (bin, namedtuple: not a data value; SAFE_TO_IMPORT names it so that
+                 payloads referring to it load) and the payload holds its class - builtin_function_or_method / function,
+                 which no pickler can write as a global - under old_type / new_type.  Such a delta need not dump.
+      grants     the value is a CLASS whose own class is a metaclass other than `type` (SetOrdered: abc.ABCMeta) and the
+                 payload holds that metaclass under old_type / new_type: like the class of any value outside the
+                 allow-list it has to be named in safe_to_import (the rule of the out-of-model stream: only classes of
+                 the values are granted, never builtins.type).
+      tz_injected  t1 / t2 hold only NAIVE datetimes, the payload holds datetimes whose tzinfo is a datetime.timezone:
+                 DeepDiff's datetime_normalize put an object of a class outside SAFE_TO_IMPORT into the delta (finding
+                 C14-DATETIME-TZ)."""
+    import datetime
+    name = spec["value"]
+    v = CV_CONTROLS[name] if name in CV_CONTROLS else cv_values().get(name)
+    types_ = _tc_types(payload)
+    out = {"fn_type": False, "grants": [], "tz_injected": False}
+    if name not in CV_CONTROLS and v is not None and not isinstance(v, type) and callable(v):
+        out["fn_type"] = any(t is type(v) for t in types_) and not _by_name(type(v))
+    if isinstance(v, type) and type(v) is not type and any(t is type(v) for t in types_) and _by_name(type(v)):
+        out["grants"] = [_dotted(type(v))]
+    aware_in = [x for x in _datetimes([t1, t2], []) if x.tzinfo is not None]
+    aware_out = [x for x in _datetimes(payload, []) if type(x.tzinfo) is datetime.timezone]
+    out["tz_injected"] = bool(aware_out) and not aware_in
+    return out
+
+
+def cv_grant(safe, extra):
+    """the safe_to_import argument `safe` (any of its shapes) with the names `extra` added"""
+    if not extra:
+        return safe
+    if not safe:
+        return list(extra)
+    if isinstance(safe, str):
+        return [safe] + list(extra)
+    if isinstance(safe, (set, frozenset)):
+        return type(safe)(set(safe) | set(extra))
+    return type(safe)(list(safe) + list(extra))
+
+
 def cv_one(ctx, spec, idx, out):
     """the direct oracle on one delta of the class-value stream: every way of persisting it, every way of reading it back"""
     import logging
@@ -1406,9 +1489,16 @@ def cv_one(ctx, spec, idx, out):
     want_d = cv_canon(d.to_dict())
 
     # ---- the three ways of writing ------------------------------------------
+    feat = cv_outside(spec, t1, t2, payload)
     try:
         b1 = d.dumps()
     except Exception as e:  # noqa
+        if feat["fn_type"] and type(e).__name__ == "PicklingError":
+            # outside the quantifier (a function is not a nested data value): no "must dump" demand; the functions stay in
+            # every position whose delta dumps (all load-side checks below apply to them)
+            ctx.count("classval:outside the quantifier: type change to an allow-listed FUNCTION, its class %s cannot be pickled (dumps raises PicklingError)"
+                      % type(cv_values()[spec["value"]]).__name__)
+            return
         ctx.fail(dict(case, path="pickle", stage="dumps", error=type(e).__name__), "Delta.dumps() raised %s" % type(e).__name__)
         return
     fn = os.path.join(ctx.scratch, "classval_%d.bin" % (idx % 5))
@@ -1424,8 +1514,31 @@ def cv_one(ctx, spec, idx, out):
         return
     if buf.getvalue() != b1 or on_disk != b1:
         ctx.fail(dict(case, path="pickle", stage="dump(file)"), "dump(file) and dumps() wrote different bytes for the same delta")
-    safe = SAFE_SHAPES[idx % len(SAFE_SHAPES)]
-    case["safe_to_import"] = repr(safe)
+    safe0 = SAFE_SHAPES[idx % len(SAFE_SHAPES)]
+    case["safe_to_import"] = repr(safe0)
+    safe = cv_grant(safe0, feat["grants"])
+    tz_granted = False
+    if feat["grants"]:
+        ctx.count("classval:metaclass of the class value granted through safe_to_import: " + ", ".join(feat["grants"]))
+        pcanon = None     # the model's default process does not have the grant
+    if feat["tz_injected"]:
+        # finding C14-DATETIME-TZ: the default load is judged first (and reported: known finding if exactly the predicted
+        # refusal); the rest of the oracle then runs with the one name granted
+        TZ = "datetime.timezone"
+        r0 = P.real_load(b1, feat["grants"] or None)
+        if r0["cls"] != "ok":
+            last = r0["calls"][-1] if r0["calls"] else None
+            forbidden = "%s.%s" % (last[0], last[1]) if last and not last[2] else None
+            rg = P.real_load(b1, feat["grants"] + [TZ])
+            ctx.fail(dict(case, path="pickle", stage="load", source="pickle_load", error=r0["exc"], forbidden=forbidden, tz_injected=True,
+                          loads_when_granted=bool(rg["cls"] == "ok" and cv_canon(rg["result"]) == want_p)),
+                     "Delta's own dump does not load: %s %s (naive datetimes in, datetime.timezone.utc in the delta)" % (r0["exc"], forbidden))
+            ctx.count("classval:datetime.timezone injected by DeepDiff: default load refused")
+            safe = cv_grant(safe, [TZ])
+            tz_granted = True
+        else:
+            ctx.count("classval:datetime.timezone injected by DeepDiff: default load accepted")
+    granted = (feat["grants"] + (["datetime.timezone"] if tz_granted else [])) or None
 
     def from_file():
         with open(fn, "rb") as f:
@@ -1435,7 +1548,7 @@ def cv_one(ctx, spec, idx, out):
           "file": from_file,
           "path": lambda: Delta(delta_path=fn, bidirectional=bid, safe_to_import=safe)}
     # ---- the ways of reading back ---------------------------------------------
-    res = P.real_load(b1, None)
+    res = P.real_load(b1, granted)
     if res["cls"] != "ok":
         ctx.fail(dict(case, path="pickle", stage="load", source="pickle_load", error=res["exc"]),
                  "Delta's own dump does not load: %s (categories %s)" % (res["exc"], ", ".join(sorted(payload))))
@@ -1472,7 +1585,7 @@ def cv_one(ctx, spec, idx, out):
         if nm == "bytes":
             try:
                 b2 = dx.dumps()
-                if cv_canon(Delta(b2, bidirectional=bid).diff) != want_p:
+                if cv_canon(Delta(b2, bidirectional=bid, safe_to_import=granted).diff) != want_p:
                     ctx.fail(dict(case, path="pickle", stage="second dump"), "dumping the reloaded delta again gives a different payload")
             except Exception as e:  # noqa
                 ctx.fail(dict(case, path="pickle", stage="second dump", error=type(e).__name__),
@@ -2321,7 +2434,17 @@ def _m_nonetype(case):
     return case.get("path") == "json" and case.get("stage") in ("payload", "second dump", "payload-relation") and case.get("nonetype_only") is True
 
 
-MATCHERS = {"K12": _m_k12, "C14-JSON-NONETYPE": _m_nonetype}
+def _m_datetime_tz(case):
+    """clause: the default reload of the delta's own pickle dump is refused (stage load, ForbiddenModule); feature: the
+    inputs held only naive datetimes and the payload holds datetime.timezone objects (tz_injected, computed on the live
+    objects); prediction: the refused name is exactly datetime.timezone and with that ONE name granted the dump loads to
+    the original payload.  A ForbiddenModule for any other name (builtins.type: seeded C14-10) never matches."""
+    return (case.get("path") == "pickle" and case.get("stage") == "load" and case.get("error") == "ForbiddenModule"
+            and case.get("forbidden") == "datetime.timezone" and case.get("tz_injected") is True
+            and case.get("loads_when_granted") is True)
+
+
+MATCHERS = {"K12": _m_k12, "C14-JSON-NONETYPE": _m_nonetype, "C14-DATETIME-TZ": _m_datetime_tz}
 
 
 def fixed_witnesses(ctx):
@@ -2358,6 +2481,18 @@ def fixed_witnesses(ctx):
     else:
         ctx.fail({"path": "json", "stage": "payload", "nonetype_only": _nonetype_only(d.diff, d2.diff), "t1": "{'a': None}",
                   "t2": "{'a': 1}", "witness": "coq"}, "the JSON round trip changes the payload")
+    ctx.evaluations += 1
+    # C14-DATETIME-TZ (no Coq witness: datetimes are outside pv): the finding's witness on the implementation, recorded
+    import datetime as _dt
+    try:
+        dz = Delta(DeepDiff({"a": _dt.datetime(2020, 1, 2)}, {"a": _dt.datetime(2021, 1, 2)}))
+        try:
+            Delta(dz.dumps())
+            rep["C14-DATETIME-TZ"] = "loads"
+        except Exception as e:  # noqa
+            rep["C14-DATETIME-TZ"] = type(e).__name__
+    except Exception as e:  # noqa
+        rep["C14-DATETIME-TZ"] = "witness not buildable: " + type(e).__name__
     ctx.evaluations += 1
     ctx.note("refuted_witnesses_replayed", rep)
     pay = Delta(DeepDiff(t1, t2)).diff
